@@ -182,6 +182,13 @@ class EncFrame(Component):
         for n in range(2, 26):
             for sh in ('edge', 'noise', 'alt'):
                 out.append(self.one(rng, n, 1, 32, sh, optsets[n % len(optsets)], 96000))
+        # incompressible blocks long enough for any expansion to outgrow the per-subframe allowance, with and without LPC
+        for sh in ('noise', 'alt', 'edge'):
+            for n in (256, 1024) + ((4096,) if tier == 'thorough' else ()):
+                for bps in (8, 16, 24):
+                    for o in ({'lpc': 'none'}, {'lpc': 'none', 'po': '0'}, {}, {'lpc': '1', 'po': '0', 'ms': '0'}):
+                        out.append(self.one(rng, n, 1, bps, sh, o, 44100))
+                        out.append(self.one(rng, n, 2, bps, sh, o, 44100))
         nrand = self.budget(tier, boost, 600, 40000)
         for i in range(nrand):
             ch = rng.choice([1, 1, 2, 2, 2, 3, 4, 5, 6, 7, 8])
@@ -894,6 +901,10 @@ class CrashPrefix(Component):
         if h != 'ok':
             return (f'crash:write-failed:{cls}', impl[:200])
         ends = ints(f['ends']); lens = ints(f['lens']); metalen = int(f['metalen'])
+        # the frames written before finalize are the whole blocks of the input, whatever the readers make of them
+        whole = (len(ints(cf['pcm'])) // int(cf['ch'])) // int(cf['bs'])
+        if len(ends) != whole or any(l != int(cf['bs']) for l in lens):
+            return ('crash:frames-unreadable', f'{whole} whole blocks of {cf["bs"]} were written before finalize but the unfinished file parses into frames of {lens}')
         declared = 'total' in cf
         ch = int(cf['ch'])
         unit = {'byte': ch * ((int(cf['bps']) + 7) // 8), 'sample': ch, 'chan': 1}[cf['fe']]
